@@ -139,6 +139,7 @@ C02(pre, e, post, acc, line) ==
 UserOps == {"deposit", "withdraw", "borrow", "repay"}
 NetPos(a, bn, q) == RSub(RMul(R(PosBits(a, bn, "a")), R(q.asv)), RMul(R(PosBits(a, bn, "l")), R(q.lsv)))
 TokAmt(s, t) == IF Has(s.tok, t) THEN s.tok[t].amount ELSE BZero
+TokGross(s, t) == IF Has(s.tok, t) THEN BAdd(s.tok[t].amount, s.tok[t].withheld) ELSE BZero
 \* all token accounts (of the bank's mint) that are not vaults of any bank: the "outside world"
 OutsideTok(s, mint) ==
   {t \in DOMAIN s.tok : s.tok[t].mint = mint /\ \A bn \in DOMAIN s.banks :
